@@ -539,7 +539,7 @@ def type_check(out, e, sig_head, cls, ref, a, b, wit):
 def do_pts(e, out):
     f = FAMS[e['fam']]
     P = [M(s) for s in e['params']]
-    head = 'C14|%s|%s' % (e['fam'], e['pclass'])
+    head = 'C14|%s|%s' % (e['fam'] + ('.' + e['via'] if e.get('via') else ''), e['pclass'])
     for i, xs in enumerate(e['x']):
         x = M(xs)
         try:
@@ -605,7 +605,7 @@ def quad_sum(xs, lws, lps, reffn, illfn=None):
 def do_quad(e, out):
     f = FAMS[e['fam']]
     P = [M(s) for s in e['params']]
-    head = 'C14|%s|%s' % (e['fam'], e['pclass'])
+    head = 'C14|%s|%s' % (e['fam'] + ('.' + e['via'] if e.get('via') else ''), e['pclass'])
     wit = {"family": e['fam'], "params": [Hx(s) for s in e['params']], "type": e['type']}
     out.evals += len(e['x'])
     if e['disc']:
@@ -692,7 +692,7 @@ def cdf_region(f, P, x):
 def do_cdf(e, out):
     f = FAMS[e['fam']]
     P = [M(s) for s in e['params']]
-    head = 'C14|%s|%s' % (e['fam'], e['pclass'])
+    head = 'C14|%s|%s' % (e['fam'] + ('.' + e['via'] if e.get('via') else ''), e['pclass'])
     xs = [M(s) for s in e['x']]
     n = len(xs)
     F, tolF, reg, dens, dtol = [], [], [], [], []
